@@ -145,6 +145,131 @@ def solution_shape(variant, calendar):
     return sh
 
 
+def twice_shape(variant):
+    """The same solver object builds two solutions in a row (solve then find_another_solution, or
+    intermediate states of the optimiser): the second report must be as faithful as the first and must
+    not alter the first one."""
+    name = f"two_solutions_same_solver/{variant}"
+
+    def build(P):
+        import copy
+
+        pb, tis, ws = declare(P, variant, "none")
+        solver = ps.SchedulingSolver(problem=pb)
+        solver.initialize()
+        phi = list(solver._solver.assertions())
+        ex = P.ex
+        ex.context = list(phi)
+        ex.all_sym = True
+        try:
+            m1 = stubs.IdModel(ex)
+            sol1 = solver.build_solution(m1)
+            snap = {n: (list(t.assigned_resources), t.scheduled) for n, t in sol1.tasks.items()}
+            snap_r = {n: list(r.assignments) for n, r in sol1.resources.items()}
+            # second model: the same schedule variables stand for a second, independent model
+            m2 = SecondModel(ex)
+            sol2 = solver.build_solution(m2)
+        finally:
+            ex.all_sym = False
+            ex.context = []
+        return Ctx(problem=pb, tis=tis, ws=ws, solver=solver, phi=phi, solution=sol2, model=m2, calendar="none",
+                   first=sol1, snap=snap, snap_r=snap_r, rename=m2.rename)
+
+    def obligations(ctx):
+        return [Ob(f"{PROP}/{name}/first_solution_not_altered", "custom", fn=ob_first_unaltered, replayer="checks.c11:replay_twice")]
+
+    sh = Shape(name, build, obligations, initialize=False)
+    sh.grid = False
+    sh.spec = (variant, "none")
+    sh.assumptions = lambda P: ([P.v("din") + P.v("eout") <= P.v("A_dur")] if "din" in P.terms else [])
+    return sh
+
+
+class SecondModel(stubs.IdModel):
+    """a second model of the same constraint system: every variable v is read as a renamed copy v'' and
+    the copies satisfy phi_real as well"""
+
+    def __init__(self, ex):
+        super().__init__(ex)
+        self.index = "second"
+        self.rename = {}
+        renamed, mapping = stubs.rename_problem_constants(list(ex.context), "second")
+        self.mapping2 = mapping
+        for a in renamed:
+            ex.add_assumption(a)
+
+    def _sym(self, var):
+        n = var.decl().name()
+        if n in self.mapping2:
+            return self.mapping2[n]
+        s = z3.Bool(f"m@second@{n}") if z3.is_bool(var) else z3.Int(f"m@second@{n}")
+        self.mapping2[n] = s
+        return s
+
+
+def ob_first_unaltered(ctx, path):
+    """after the second build, the first solution still says what it said; and in the second solution a task
+    lists a resource iff that resource lists an assignment for the task"""
+    for n, t in ctx.first.tasks.items():
+        if (list(t.assigned_resources), t.scheduled) != ctx.snap[n]:
+            return _structural(ctx, path, f"first solution altered by the second build: task {n} listed {ctx.snap[n][0]}, now lists {t.assigned_resources}")
+    for n, r in ctx.first.resources.items():
+        if len(r.assignments) != len(ctx.snap_r[n]):
+            return _structural(ctx, path, f"first solution altered by the second build: resource {n}")
+    sol2 = ctx.solution
+    for n, t in sol2.tasks.items():
+        listed = set(t.assigned_resources)
+        if len(t.assigned_resources) != len(listed):
+            return _structural(ctx, path, f"second solution: task {n} lists duplicates {t.assigned_resources}")
+        for rn, r in sol2.resources.items():
+            has = any(x[0] == n for x in r.assignments)
+            if has != (rn in listed):
+                return _structural(ctx, path, f"second solution: task {n} {'lists' if rn in listed else 'does not list'} {rn} while the resource {'has' if has else 'has no'} assignment for it")
+        if t.scheduled is False and t.assigned_resources:
+            return _structural(ctx, path, f"second solution: unscheduled task {n} lists {t.assigned_resources}")
+    return {"status": "unsat", "queries": 0}
+
+
+def replay_twice(desc):
+    """real z3: solve(), then find_another_solution() repeatedly on the same solver; every solution must stay
+    self-consistent and earlier ones unchanged"""
+    import symx.harness as H
+    import copy
+
+    shape = H.get_shape(desc["module"], desc["shape"])
+    variant, _ = shape.spec
+    w = desc["witness"]
+    problems = []
+    with quiet():
+        P = engine.Params("conc", values=w["params"])
+        pb, tis, ws = declare(P, variant, "none")
+        solver = ps.SchedulingSolver(problem=pb)
+        sol = solver.solve()
+        seen = []
+        k = 0
+        while sol and k < 12:
+            seen.append((sol, {n: (list(t.assigned_resources), t.scheduled) for n, t in sol.tasks.items()}))
+            for n, t in sol.tasks.items():
+                for rn, r in sol.resources.items():
+                    has = any(x[0] == n for x in r.assignments)
+                    if has != (rn in t.assigned_resources):
+                        problems.append(f"solution #{k}: task {n} lists {t.assigned_resources} but resource {rn} {'has' if has else 'has no'} assignment for it")
+                if not t.scheduled and t.assigned_resources:
+                    problems.append(f"solution #{k}: unscheduled task {n} lists {t.assigned_resources}")
+            for j, (s_old, snap) in enumerate(seen[:-1]):
+                for n, t in s_old.tasks.items():
+                    if (list(t.assigned_resources), t.scheduled) != snap[n]:
+                        problems.append(f"solution #{j} was altered when solution #{k} was built: task {n}")
+            sol = solver.find_another_solution()
+            k += 1
+    engine.reset_z3_globals()
+    print("replay:", problems[:2], f"({len(seen)} solutions enumerated)")
+    if problems:
+        print("CONFIRMED: " + problems[0])
+        return 1
+    return 0
+
+
 def _valid(ctx, path, goal, what):
     base = [formula.to_z3(x) for x in list(path.assume) + list(path.pc) + list(ctx.extra_assume)] + list(ctx.phi)
     v, m, _ = formula.solve_shrunk(base + [Not(formula.to_z3(goal))], 30000)
@@ -495,6 +620,8 @@ def shapes(tier):
             if tier == "quick" and cal == "delta" and variant not in ("plain", "workers"):
                 continue
             out.append(solution_shape(variant, cal))
+    for variant in ("workers", "cumulative"):
+        out.append(twice_shape(variant))
     for variant in ("scheduled", "b_unscheduled", "cumulative"):
         for di in range(len(DELTAS)):
             for ws in (True, False):
